@@ -193,6 +193,13 @@ func pointOnSegment(p, l1, l2 Point) bool {
 //     Return: the shortest distance from P to S
 // from http://geomalgorithms.com/a02-_lines.html
 func distPointToSegment(p, segStart, segEnd Point) float64 {
+	// The dot products below overflow or underflow when the coordinate
+	// differences are very large or very small although the distance itself
+	// is an ordinary number: work on a copy rescaled by an exact power of two.
+	if e := extremeExponent(p, segStart, segEnd); e != 0 {
+		s := func(q Point) Point { return Point{math.Ldexp(q.X, -e), math.Ldexp(q.Y, -e)} }
+		return math.Ldexp(distPointToSegment(s(p), s(segStart), s(segEnd)), e)
+	}
 	v := pointSubtract(segEnd, segStart)
 	w := pointSubtract(p, segStart)
 
@@ -209,6 +216,22 @@ func distPointToSegment(p, segStart, segEnd Point) float64 {
 	b := c1 / c2
 	pb := Point{segStart.X + b*v.X, segStart.Y + b*v.Y}
 	return d(p, pb)
+}
+
+// extremeExponent returns the binary exponent of the largest coordinate
+// difference between p and the segment if squaring it would leave the range of
+// float64, and 0 otherwise.
+func extremeExponent(p, segStart, segEnd Point) int {
+	m := math.Max(
+		math.Max(math.Abs(segEnd.X-segStart.X), math.Abs(segEnd.Y-segStart.Y)),
+		math.Max(math.Abs(p.X-segStart.X), math.Abs(p.Y-segStart.Y)))
+	if m == 0 || math.IsInf(m, 0) || math.IsNaN(m) {
+		return 0
+	}
+	if _, e := math.Frexp(m); e > 500 || e < -500 {
+		return e
+	}
+	return 0
 }
 
 func pointSubtract(p1, p2 Point) Point {
